@@ -4,7 +4,10 @@
    Proved for ALL strings: the person-level law (through the real tokeniser, by the agreement theorem of C13), the
    list-level law outside the known class K3 (through the real co-author splitter, by C12_exact), the reduction of the
    four-middleware round trip to the list-level law, and the refutation witness inside K3.
-   Not part of these theorems: the writer / parser legs of parse_string ... write_string (C05/C10's subject); they are
+   The writer / parser legs of parse_string ... write_string are closed in the second half of this file
+   (C14_stack_field_roundtrip, C14_stack_entry_roundtrip, C14_stack_library_roundtrip, C14_stack_document_roundtrip:
+   Spec/C14Stack.v, Proofs/NamesPipelineProofs.v, by composition with C05/C10's theorems), under explicit assumptions
+   on the merged text; C14_stack_roundtrip_refuted shows the balance assumption cannot be dropped.  The stack is also
    exercised on every run by the stack stream of the harness (op 91 + the Python oracle on re-parsed output). *)
 From Coq Require Import List NArith ZArith Bool String.
 Local Open Scope string_scope.
@@ -95,4 +98,271 @@ Proof.
   - unfold stack_inverse_at. intros b1 b2 H1 _ H2.
     vm_compute in H1. inversion H1; subst. vm_compute in H2. inversion H2; subst. vm_compute. reflexivity.
   - eexists. split; [vm_compute; reflexivity|]. vm_compute; reflexivity.
+Qed.
+
+(* ==================================================================================================================
+   THE WHOLE LOOP:   parse_string(text, append_middleware=[SeparateCoAuthors(), SplitNameParts()])
+                     write_string(library, prepend_middleware=[MergeNameParts(), MergeCoAuthors()], bibtex_format=f)
+   and parsing the written text again (Spec/C14Stack.v: parse_names / write_names, composed from the default stacks and
+   the writer of Model/Pipeline.v and the four name middlewares lifted to the library).  Proofs: NamesPipelineProofs.v,
+   by composition of C05's second half (the writer's output on a clean library is a well-formed document of the dialect
+   which re-parses with the same content; this contains C10's brace re-parse clause), C14_list_inverse_except_known and
+   the per-field description of the middlewares.  Nothing about the splitter is proved again.
+
+   ASSUMPTIONS ABOUT THE INPUT (each delimits a class in which the loop really fails):
+     * C14's own quantifier: valid names, non-empty last names, no word ending in an odd number of backslashes; outside K3;
+     * `writable v'` for the MERGED text v' = merge_names (map merge1 ps) of every name field:
+         - brace_ok v'  : v' is balanced in the SPLITTER's reading of braces and does not end in a backslash.
+                          "does not end in a backslash" is the K7 class of C05 (the backslash would escape the closing
+                          brace the writer puts behind the value).  Balance does NOT follow from validity of the names:
+                          names.py reads "\\" as an escape pair (the brace after it is real), the splitter's look-behind
+                          reads a brace after any backslash as escaped, and MergeNameParts re-orders the words
+                          (C14_stack_roundtrip_refuted, a new finding: value "{\\} \\{}");
+         - noat v' [c_rb]: v' contains no block-start pattern '@' word* blank* '{' (the K2 class of C10).  It has to be
+                          assumed of the merged text, not of the original: "Z @a~{x}" has no pattern (a tie is not a
+                          blank) and merges to "@a {x}, Z" (C14_stack_roundtrip_refuted_K2);
+     * the frame (as in C10_reparse_brace): lower-case entry type that is a word and not comment/preamble/string, key and
+       field names of key characters without '@', key not ending in a backslash, distinct field names; the entry's
+       removed-enclosing metadata absent / None / a dict (md_ok: true of every parse result); whitespace-only indent
+       and block separator (wf_fmt).
+   DERIVED, not assumed: brace_ok is exactly "render of a well-formed brace content of the grammar"
+   (C14_brace_ok_spec); if every word of every person is balanced in the splitter's reading then so is the merged
+   text (C14_merged_brace_ok: merging only adds spaces, ", ", " and " and a backslash after an odd run of backslashes);
+   the words of a VALID name are balanced in the splitter's reading as soon as they contain no two adjacent
+   backslashes (C14_valid_words_brace_ok, from the tokeniser agreement of C13: a word is a balanced list of escape
+   pairs and characters, and without the pair "\\" both readings of a backslash coincide) -- hence
+   C14_stack_field_roundtrip_valid, whose only assumptions on the text are: names in C14's scope, no "\\" in a word,
+   merged text not ending in a backslash (K7) and without block-start pattern (K2);
+   the write never fails, the written text always parses, and the re-parse of a name field is the SAME structured value
+   (not merely some value). *)
+From BP Require Import Model.LibAdd Model.Enclosing Model.Writer Model.Grammar Model.Pipeline Spec.C05 Spec.C14Stack
+  Proofs.LibAddProofs Proofs.RoundTrip Proofs.RoundTrip2 Proofs.RoundTrip4 Proofs.RoundTrip5 Proofs.RoundTripEx Proofs.NamesBraceProofs Proofs.NamesPipelineProofs.
+
+(* brace_ok (a left-to-right scan with the splitter's look-behind) is the class of C10's brace re-parse theorem *)
+Theorem C14_brace_ok_spec : forall s, brace_ok s = true <-> exists b, render_braced b = s /\ wf_braced false b = true.
+Proof. exact brace_ok_iff. Qed.
+Print Assumptions C14_brace_ok_spec.
+
+(* derived: merging keeps words that are balanced for the splitter balanced *)
+Theorem C14_merged_brace_ok : forall ps,
+  Forall (fun p => Forall (fun w => word_brace_ok w = true) (all_words p)) ps ->
+  Grammar.ends_bs false (merge_names (map merge1 ps)) = false ->
+  brace_ok (merge_names (map merge1 ps)) = true.
+Proof. exact merged_brace_ok. Qed.
+Print Assumptions C14_merged_brace_ok.
+
+(* ONE NAME FIELD OF ONE ENTRY.  v is the field's text as the default parse stack leaves it, ps its persons; the parse
+   side turns the field into the structured value; writing that entry (merge middlewares, AddEnclosing, writer: never
+   fails) and parsing the text again (splitter, default stack, parse side: never fails) gives one entry with the same
+   type and key whose field holds exactly ps again.  v itself need not be writable, only the merged text. *)
+Theorem C14_stack_field_roundtrip : forall nf f h t k name fl v ps,
+  wf_fmt f -> entry_frame_ok t k = true -> field_key_ok name = true -> mem_str name nf = true ->
+  md_ok [BEntry h t k [mkfield name (VStr v) fl]] = true ->
+  persons_of v = map POk ps -> Forall admissible ps -> known_C14_K3_b ps = false ->
+  writable (merge_names (map merge1 ps)) ->
+  let structured := VList (map v_of_parts ps) in
+  names_lib nf parse_side [BEntry h t k [mkfield name (VStr v) fl]] = Enclosing.Val [BEntry h t k [mkfield name structured fl]] /\
+  exists t1 h' fl', write_names nf f [BEntry h t k [mkfield name structured fl]] = PVal t1
+                    /\ parse_names nf t1 = PVal [BEntry h' t k [mkfield name structured fl']].
+Proof. exact stack_field_roundtrip. Qed.
+Print Assumptions C14_stack_field_roundtrip.
+
+(* ONE ENTRY with any number of fields: name fields in scope with writable merged text, the other fields writable;
+   the re-parsed entry has the same field names in the same order with the same values (structured names included) *)
+Theorem C14_stack_entry_roundtrip : forall nf f h t k fs,
+  wf_fmt f -> entry_frame_ok t k = true -> fresh_all [] (map fkey fs) = true -> md_ok [BEntry h t k fs] = true ->
+  Forall (entry_field_ok nf) fs ->
+  exists fs1 t1 h' fs2,
+    names_lib nf parse_side [BEntry h t k fs] = Enclosing.Val [BEntry h t k fs1]
+    /\ write_names nf f [BEntry h t k fs1] = PVal t1
+    /\ parse_names nf t1 = PVal [BEntry h' t k fs2]
+    /\ map (fun x => (fkey x, fval x)) fs2 = map (fun x => (fkey x, fval x)) fs1.
+Proof. exact stack_entry_roundtrip. Qed.
+Print Assumptions C14_stack_entry_roundtrip.
+
+(* A WHOLE LIBRARY whose content is clean (cs: every text a brace content without block-start pattern -- what every
+   parse of a dialect document outside K7 produces, C05) and whose name fields are in scope with writable merged text *)
+Theorem C14_stack_library_roundtrip : forall nf f cs l0,
+  wf_fmt f -> wf_cs false cs -> content l0 = ccontent cs -> wf_blocks l0 -> md_ok l0 = true ->
+  Forall (name_fields_ok nf) (content l0) ->
+  exists l1 t1 l2, names_lib nf parse_side l0 = Enclosing.Val l1 /\ write_names nf f l1 = PVal t1
+                   /\ parse_names nf t1 = PVal l2 /\ content l2 = content l1.
+Proof. exact stack_clean_roundtrip. Qed.
+Print Assumptions C14_stack_library_roundtrip.
+
+(* THE SENTENCE OF THE PROPERTY: for every document d of the dialect grammar (duplicate-free) outside K7 whose name
+   fields are in scope with writable merged text and every whitespace format: parsing with the two middlewares appended,
+   writing with their inverses prepended and parsing again succeed, and the two structured libraries have the same content
+   (types, keys, field order, values -- the persons and parts of every name field among them) *)
+Theorem C14_stack_document_roundtrip : forall nf d f l0,
+  wf_doc d -> nodup_doc d -> wf_fmt f ->
+  parse_default (Grammar.render d) = PVal l0 -> known_K7 l0 = false -> Forall (name_fields_ok nf) (content l0) ->
+  exists l1 t1 l2, parse_names nf (Grammar.render d) = PVal l1 /\ write_names nf f l1 = PVal t1
+                   /\ parse_names nf t1 = PVal l2 /\ content l2 = content l1.
+Proof. exact stack_doc_roundtrip. Qed.
+Print Assumptions C14_stack_document_roundtrip.
+
+(* derived: validity gives the balance, where names.py and the splitter read backslashes alike *)
+Theorem C14_valid_words_brace_ok : forall s p, split1 s = POk p ->
+  Forall (fun w => no_double_bs w = true) (all_words p) -> Forall (fun w => word_brace_ok w = true) (all_words p).
+Proof. exact NamesBraceProofs.valid_words_brace_ok. Qed.
+Print Assumptions C14_valid_words_brace_ok.
+
+Theorem C14_merged_brace_ok_valid : forall v ps, persons_of v = map POk ps ->
+  Forall (fun p => Forall (fun w => no_double_bs w = true) (all_words p)) ps ->
+  Grammar.ends_bs false (merge_names (map merge1 ps)) = false ->
+  brace_ok (merge_names (map merge1 ps)) = true.
+Proof. exact merged_brace_ok_valid. Qed.
+Print Assumptions C14_merged_brace_ok_valid.
+
+(* the field theorem with the balance derived from validity *)
+Theorem C14_stack_field_roundtrip_valid : forall nf f h t k name fl v ps,
+  wf_fmt f -> entry_frame_ok t k = true -> field_key_ok name = true -> mem_str name nf = true ->
+  md_ok [BEntry h t k [mkfield name (VStr v) fl]] = true ->
+  persons_of v = map POk ps -> Forall admissible ps -> known_C14_K3_b ps = false ->
+  Forall (fun p => Forall (fun w => no_double_bs w = true) (all_words p)) ps ->       (* outside the new finding *)
+  Grammar.ends_bs false (merge_names (map merge1 ps)) = false ->                      (* outside K7 *)
+  noat (merge_names (map merge1 ps)) [c_rb] = true ->                                 (* outside K2 *)
+  let structured := VList (map v_of_parts ps) in
+  names_lib nf parse_side [BEntry h t k [mkfield name (VStr v) fl]] = Enclosing.Val [BEntry h t k [mkfield name structured fl]] /\
+  exists t1 h' fl', write_names nf f [BEntry h t k [mkfield name structured fl]] = PVal t1
+                    /\ parse_names nf t1 = PVal [BEntry h' t k [mkfield name structured fl']].
+Proof. exact stack_field_roundtrip_valid. Qed.
+Print Assumptions C14_stack_field_roundtrip_valid.
+
+(* the balance assumption is needed -- and this is a finding about /repo, reproduced on the real parse_string /
+   write_string: the entry  @article{k, author = {{\\} \\{}}}  parses into one valid, admissible person outside K3 whose
+   text is a fine brace content; the written text  author = {\\{}, {\\}}  re-parses as a failed block and a comment *)
+Theorem C14_stack_roundtrip_refuted :
+  exists l1 t1 l2,
+    parse_names default_name_fields bs2_text = PVal l1
+    /\ content l1 = [KEntry (lit "article") (lit "k") [(lit "author", VList (map v_of_parts bs2_ps))]]
+    /\ persons_of bs2_value = map POk bs2_ps /\ forallb admissible_b bs2_ps = true /\ known_C14_K3_b bs2_ps = false
+    /\ brace_ok bs2_value = true /\ noat bs2_value [c_rb] = true
+    /\ forallb word_brace_ok (flat_map all_words bs2_ps) = false
+    /\ merge_names (map merge1 bs2_ps) = lit "\\{}, {\\}"
+    /\ brace_ok (merge_names (map merge1 bs2_ps)) = false
+    /\ write_names default_name_fields default_fmt l1 = PVal t1
+    /\ t1 = lit "@article{k,
+	author = {\\{}, {\\}}
+}
+"
+    /\ parse_names default_name_fields t1 = PVal l2
+    /\ map class_of l2 = [CFailed; CImpl].
+Proof. exact stack_roundtrip_refuted. Qed.
+Print Assumptions C14_stack_roundtrip_refuted.
+
+(* ... and so is the assumption on block-start patterns, on the merged text (class K2 reached through the merge; also
+   reproduced on the real parse_string / write_string):  @article{k, author = {Z @a~{x}}}  is written
+   author = {@a {x}, Z}  and re-parses as a failed block, an entry @a{x} and a comment *)
+Theorem C14_stack_roundtrip_refuted_K2 :
+  exists l1 t1 l2,
+    parse_names default_name_fields at2_text = PVal l1
+    /\ content l1 = [KEntry (lit "article") (lit "k") [(lit "author", VList (map v_of_parts at2_ps))]]
+    /\ persons_of at2_value = map POk at2_ps /\ forallb admissible_b at2_ps = true /\ known_C14_K3_b at2_ps = false
+    /\ brace_ok at2_value = true /\ noat at2_value [c_rb] = true
+    /\ merge_names (map merge1 at2_ps) = lit "@a {x}, Z"
+    /\ brace_ok (merge_names (map merge1 at2_ps)) = true
+    /\ noat (merge_names (map merge1 at2_ps)) [c_rb] = false
+    /\ write_names default_name_fields default_fmt l1 = PVal t1
+    /\ parse_names default_name_fields t1 = PVal l2
+    /\ map class_of l2 = [CFailed; Blocks.CEntry; CImpl].
+Proof. exact stack_roundtrip_refuted_at. Qed.
+Print Assumptions C14_stack_roundtrip_refuted_K2.
+
+(* ---- non-vacuity: the hypotheses of the field theorem on a concrete two-person value, and the loop computed on the
+   executable model for the same entry *)
+Example C14_example_stack_field :
+  let nf := default_name_fields in
+  let v := lit "Donald E. Knuth and Ludwig van Beethoven" in
+  let ps := [mkparts [lit "Donald"; lit "E."] [] [lit "Knuth"] []; mkparts [lit "Ludwig"] [lit "van"] [lit "Beethoven"] []] in
+  let structured := VList (map v_of_parts ps) in
+  let written := lit "@book{k,
+	author = {Knuth, Donald E. and van Beethoven, Ludwig}
+}
+" in
+  wf_fmt default_fmt /\ entry_frame_ok (lit "book") (lit "k") = true /\ field_key_ok (lit "author") = true
+  /\ mem_str (lit "author") nf = true /\ md_ok [BEntry hdr0 (lit "book") (lit "k") [mkfield (lit "author") (VStr v) None]] = true
+  /\ persons_of v = map POk ps /\ Forall admissible ps /\ known_C14_K3_b ps = false
+  /\ merge_names (map merge1 ps) = lit "Knuth, Donald E. and van Beethoven, Ludwig"
+  /\ writable (merge_names (map merge1 ps))
+  /\ forallb no_double_bs (flat_map all_words ps) = true /\ Grammar.ends_bs false (merge_names (map merge1 ps)) = false
+  /\ write_names nf default_fmt [BEntry hdr0 (lit "book") (lit "k") [mkfield (lit "author") structured None]] = PVal written
+  /\ exists h', parse_names nf written = PVal [BEntry h' (lit "book") (lit "k") [mkfield (lit "author") structured (Some 1%Z)]].
+Proof.
+  cbv zeta. split; [exact default_fmt_wf|].
+  split; [vm_compute; reflexivity|].
+  split; [vm_compute; reflexivity|].
+  split; [vm_compute; reflexivity|].
+  split; [vm_compute; reflexivity|].
+  split; [vm_compute; reflexivity|].
+  split; [repeat constructor; vm_compute; discriminate|].
+  split; [vm_compute; reflexivity|].
+  split; [vm_compute; reflexivity|].
+  split; [split; vm_compute; reflexivity|].
+  split; [vm_compute; reflexivity|]. split; [vm_compute; reflexivity|].
+  split; [vm_compute; reflexivity|].
+  eexists; vm_compute; reflexivity.
+Qed.
+
+(* the same through the theorem *)
+Example C14_example_stack_field_thm :
+  let nf := default_name_fields in
+  let v := lit "Donald E. Knuth and Ludwig van Beethoven" in
+  let ps := [mkparts [lit "Donald"; lit "E."] [] [lit "Knuth"] []; mkparts [lit "Ludwig"] [lit "van"] [lit "Beethoven"] []] in
+  exists t1 h' fl', write_names nf default_fmt [BEntry hdr0 (lit "book") (lit "k") [mkfield (lit "author") (VList (map v_of_parts ps)) None]] = PVal t1
+    /\ parse_names nf t1 = PVal [BEntry h' (lit "book") (lit "k") [mkfield (lit "author") (VList (map v_of_parts ps)) fl']].
+Proof.
+  cbv zeta. destruct C14_example_stack_field as (Hf & Hfr & Hk & Hm & Hmd & Hv & Ha & Hk3 & _ & Hw & _).
+  exact (proj2 (C14_stack_field_roundtrip _ _ _ _ _ _ _ _ _ Hf Hfr Hk Hm Hmd Hv Ha Hk3 Hw)).
+Qed.
+
+(* the hypotheses of the entry theorem: a name field with a special character, a Jr part, a tie and a protected 'and',
+   next to an ordinary field containing ' and ', a group and a harmless '@' *)
+Example C14_example_stack_entry :
+  let fs := [mkfield (lit "author") (VStr (lit "von der {\'E}x Last, Jr, First~Name and {Barnes {and} Noble, Inc.}")) None;
+             mkfield (lit "title") (VStr (lit "X and {Y} @ home")) None] in
+  entry_frame_ok (lit "book") (lit "k") = true /\ fresh_all [] (map fkey fs) = true
+  /\ md_ok [BEntry hdr0 (lit "book") (lit "k") fs] = true /\ Forall (entry_field_ok default_name_fields) fs.
+Proof.
+  cbv zeta. split; [vm_compute; reflexivity|]. split; [vm_compute; reflexivity|]. split; [vm_compute; reflexivity|].
+  constructor; [|constructor; [|constructor]].
+  - split; [vm_compute; reflexivity|]. eexists. split; [reflexivity|]. cbn [fkey].
+    change (mem_str (lit "author") default_name_fields) with true. cbv iota.
+    set (ps := [mkparts [lit "First"; lit "Name"] [lit "von"; lit "der"] [lit "{\'E}x"; lit "Last"] [lit "Jr"];
+                mkparts [] [] [lit "{Barnes {and} Noble, Inc.}"] []]).
+    match goal with |- name_value_ok ?s =>
+      assert (Hv : persons_of s = map POk ps) by (vm_compute; reflexivity); pose proof (parts_of_ok _ _ Hv) as Ep end.
+    unfold name_value_ok, remerge. rewrite Ep. split; [exact Hv|].
+    split; [constructor; [|constructor; [|constructor]]; (split; [vm_compute; discriminate | vm_compute; reflexivity])|].
+    split; [vm_compute; reflexivity|]. split; vm_compute; reflexivity.
+  - split; [vm_compute; reflexivity|]. eexists. split; [reflexivity|]. cbn [fkey].
+    change (mem_str (lit "title") default_name_fields) with false. cbv iota.
+    split; vm_compute; reflexivity.
+Qed.
+
+(* ... and the loop for that entry, through the theorem *)
+Example C14_example_stack_entry_thm :
+  let fs := [mkfield (lit "author") (VStr (lit "von der {\'E}x Last, Jr, First~Name and {Barnes {and} Noble, Inc.}")) None;
+             mkfield (lit "title") (VStr (lit "X and {Y} @ home")) None] in
+  exists fs1 t1 h' fs2,
+    names_lib default_name_fields parse_side [BEntry hdr0 (lit "book") (lit "k") fs] = Enclosing.Val [BEntry hdr0 (lit "book") (lit "k") fs1]
+    /\ write_names default_name_fields default_fmt [BEntry hdr0 (lit "book") (lit "k") fs1] = PVal t1
+    /\ parse_names default_name_fields t1 = PVal [BEntry h' (lit "book") (lit "k") fs2]
+    /\ map (fun x => (fkey x, fval x)) fs2 = map (fun x => (fkey x, fval x)) fs1.
+Proof.
+  cbv zeta. destruct C14_example_stack_entry as (Hfr & Hfresh & Hmd & Hfs).
+  exact (C14_stack_entry_roundtrip _ _ _ _ _ _ default_fmt_wf Hfr Hfresh Hmd Hfs).
+Qed.
+
+(* the derived balance of the merged text from the words, on the same persons *)
+Example C14_example_merged_brace_ok :
+  let ps := [mkparts [lit "First"; lit "Name"] [lit "von"; lit "der"] [lit "{\'E}x"; lit "Last"] [lit "Jr"]; mkparts [] [] [lit "{Barnes {and} Noble, Inc.}"] []] in
+  Forall (fun p => Forall (fun w => word_brace_ok w = true) (all_words p)) ps
+  /\ Grammar.ends_bs false (merge_names (map merge1 ps)) = false
+  /\ persons_of (lit "von der {\'E}x Last, Jr, First~Name and {Barnes {and} Noble, Inc.}") = map POk ps.
+Proof.
+  cbv zeta. split; [|split; vm_compute; reflexivity].
+  constructor; [|constructor; [|constructor]]; apply Forall_forall; intros w Hw; vm_compute in Hw;
+    repeat (destruct Hw as [<-|Hw]; [vm_compute; reflexivity|]); contradiction.
 Qed.
